@@ -247,9 +247,7 @@ func c39ForwardFault(t *testing.T, r *verifkit.R) {
 				}
 				fmu.Unlock()
 				if fire {
-					if c := T.peerMgr.GetPeer(X.ID()); c != nil {
-						c.Close()
-					}
+					mkKillLinkFromTap(T, X.ID())
 				}
 			}
 		}
